@@ -5,7 +5,7 @@ From Coq Require Import NArith List Bool.
 Import ListNotations.
 From Coq Require Import ZArith.
 From CXV Require Import Gen.TokTy Gen.ParserTables Parse.Balanced Gen.Blocks Parse.BlocksSM.
-From CXV Require Import Base.Regex Base.Cost Gen.LexRules Lex.PlyLoop Gen.StreamTables Stream.TokBuf Fmt.TokFmt PP.Filters Misc.ReprModel Gen.Schema Parse.Fold Parse.Declarator Parse.DeclSpec Parse.EnumList Parse.BaseClause Parse.NsHeader Parse.Specs Parse.VarStmt Parse.FnTail.
+From CXV Require Import Base.Regex Base.Cost Gen.LexRules Lex.PlyLoop Gen.StreamTables Stream.TokBuf Fmt.TokFmt PP.Filters Misc.ReprModel Gen.Schema Parse.Fold Parse.Declarator Parse.DeclSpec Parse.EnumList Parse.BaseClause Parse.NsHeader Parse.Specs Parse.VarStmt Parse.FnTail Parse.Init.
 Open Scope N_scope.
 
 Definition nlen {A} (l : list A) : N := N.of_nat (length l).
@@ -510,8 +510,24 @@ Definition run_fn_stmt (args : list N) : list N :=
   | DErr e => [1; e]
   end.
 
+(* 91: a variable statement with initialisers: declarator budget, then tokens.
+   Output: 0, rest length, count, nine flags, then per declarator: name, type length, type, value (0 | 1 len tokens) *)
+Definition run_var_stmt_i (args : list N) : list N :=
+  match args with
+  | n :: r =>
+      let toks := dec_tks r in
+      match var_stmt_i (N.to_nat n) (4 * length toks + 8) toks with
+      | DOk (m, l, rest) =>
+          0 :: nlen rest :: nlen l :: enc_mods m ++
+            flat_map (fun p => let e := enc_ty (snd (fst p)) in fst (fst p) :: nlen e :: e ++ enc_opt_tks (snd p)) l
+      | DErr e => [1; e]
+      end
+  | [] => [1; 0]
+  end.
+
 Definition run_case (cmd : N) (args : list N) : list N :=
   match cmd, args with
+  | 91, _ => run_var_stmt_i args
   | 90, _ => run_fn_stmt args
   | 89, _ => run_var_stmt args
   | 88, _ => run_specs args
